@@ -52,7 +52,7 @@ func init() {
 	two := []string{"t1", "t2"}
 	three := []string{"t1", "t2", "t3"}
 	s2Check("C01", "exploration", "runtime monitoring: PRNG histories on the real controllers, end state vs sequential transaction model + per-transaction merge-pattern monitor over the event log",
-		s2Rule, 150, 6000, map[string]int64{"multi_target_transactions": 200, "multi_target_aborted": 30, "executions_reaching_final_state": 100},
+		s2Rule, 150, 6000, map[string]int64{"multi_target_transactions": 200, "multi_target_aborted": 30, "executions_reaching_final_state": 100, "executions_with_a_process_kill": 15},
 		func(c *fw.Case) *engine.Profile {
 			p := &engine.Profile{Targets: two, MinOps: 4, MaxOps: 9, PMulti: 80, PPoison: 25, PEq: 15, PDevReject: 5, PDelete: 25, PRollback: 8, PEnv: 10, PNoWait: 40, PSync: 20, PStartOffline: 15, PDevFault: 5, Paths: "rich"}
 			if c.Index%3 == 0 {
@@ -66,10 +66,15 @@ func init() {
 				// a reconcile pass over a multi-target transaction is cut short between two of its store writes
 				p.PStoreFault, p.PCreateFault = 10, 25
 			}
+			if c.Index%5 == 4 {
+				// the property's quantifier includes a process crash between any two store writes: one kill per history,
+				// before a decorated effect or between two individual Atomix writes, restart on the same cluster
+				p.PCrash = 100
+			}
 			return p
 		})
 	s2Check("C02", "exploration", "runtime monitoring: online order monitor over decorated store / device calls (merge order, push order, push-after-merge, index monotonicity)",
-		s2Rule, 150, 6000, map[string]int64{"overlapping_proposal_pairs": 200, "proposal_pushes_observed": 300, "merges_observed": 300},
+		s2Rule, 150, 6000, map[string]int64{"overlapping_proposal_pairs": 200, "proposal_pushes_observed": 300, "merges_observed": 300, "executions_with_a_process_kill": 15},
 		func(c *fw.Case) *engine.Profile {
 			p := &engine.Profile{Targets: two, MinOps: 5, MaxOps: 12, PMulti: 30, PPoison: 10, PEq: 5, PDevReject: 8, PDelete: 25, PRollback: 8, PEnv: 20, PNoWait: 85, PSync: 10, PStartOffline: 35, PDevFault: 15, Paths: "rich"}
 			if c.Index%2 == 1 {
@@ -78,6 +83,9 @@ func init() {
 			if c.Index%3 == 0 {
 				p.Targets = []string{"t1"}
 				p.Paths = "basic"
+			}
+			if c.Index%5 == 3 {
+				p.PCrash = 100 // crash points are part of the property's quantifier
 			}
 			return p
 		})
@@ -115,9 +123,16 @@ func init() {
 			return p
 		})
 	s2Check("C10", "fault_enumeration", "runtime monitoring: online mastership monitor (terms, master changes, election id and connection of every device request against the configuration version its task read, re-sync gate)",
-		s2Rule, 150, 6000, map[string]int64{"mastership_changes": 300, "device_requests_checked": 500},
+		s2Rule, 150, 6000, map[string]int64{"mastership_changes": 300, "device_requests_checked": 500, "elections_checked": 300},
 		func(c *fw.Case) *engine.Profile {
-			return &engine.Profile{Targets: two, MinOps: 4, MaxOps: 9, PMulti: 25, PPoison: 8, PEq: 3, PDevReject: 5, PDelete: 25, PRollback: 8, PEnv: 85, PNoWait: 50, PSync: 10, PStartOffline: 40, PDevFault: 10, Paths: "basic"}
+			p := &engine.Profile{Targets: two, MinOps: 4, MaxOps: 9, PMulti: 25, PPoison: 8, PEq: 3, PDevReject: 5, PDelete: 25, PRollback: 8, PEnv: 85, PNoWait: 50, PSync: 10, PStartOffline: 40, PDevFault: 10, Paths: "basic"}
+			if c.Index%2 == 1 {
+				p.PForeign = 25 // competing relations: another onos-config node's CONTROLS relation comes and goes
+			}
+			if c.Index%4 == 2 {
+				p.PCrash = 100 // a restarted process finds the CONTROLS relations of its previous incarnation in the topology
+			}
+			return p
 		})
 	refusals := []codes.Code{codes.Unknown, codes.InvalidArgument, codes.NotFound, codes.AlreadyExists, codes.ResourceExhausted, codes.FailedPrecondition,
 		codes.Aborted, codes.OutOfRange, codes.Unimplemented, codes.Internal, codes.DataLoss, codes.Unauthenticated}
